@@ -235,8 +235,15 @@ VALUE_CLASSES = None
 
 
 def is_value_object(gfapy, x):
-    return isinstance(x, (gfapy.CIGAR, gfapy.Trace, gfapy.LastPos, gfapy.OrientedLine, gfapy.SegmentEnd, gfapy.NumericArray, gfapy.FieldArray,
-                          gfapy.CIGAR.Operation)) or (isinstance(x, (list, dict)) and not isinstance(x, gfapy.Line))
+    if isinstance(x, (gfapy.CIGAR, gfapy.Trace, gfapy.LastPos, gfapy.OrientedLine, gfapy.SegmentEnd, gfapy.NumericArray, gfapy.FieldArray,
+                      gfapy.CIGAR.Operation)):
+        return True
+    if isinstance(x, dict):
+        return True
+    if isinstance(x, list):       # JSON lists, lists of alignments / oriented names -- not the collections of lines
+        return not any(isinstance(e, (gfapy.Line, gfapy.SegmentEnd)) or (isinstance(e, gfapy.OrientedLine) and isinstance(e.line, gfapy.Line))
+                       for e in x)
+    return False
 
 
 # ---------------------------------------------------------------------------------------------------- catalogue
@@ -300,14 +307,12 @@ def catalogue(gfapy, g, held):
         add(P + "to_gfa2_s", lambda l=l: l.to_gfa2_s())
         add(P + "to_gfa1", lambda l=l: l.to_gfa1())
         add(P + "to_gfa2", lambda l=l: l.to_gfa2())
-        add(P + "select(line)", lambda l=l: g.select(l))
+        if rt != "H":
+            add(P + "select(line)", lambda l=l: g.select(l))
         add(P + "name", lambda l=l: l.get("name"))
 
-        def fields(l=l):
-            return list(l.positional_fieldnames) + list(l.tagnames)
-
         def each_field(fn, l=l):
-            return [fn(f) for f in fields()]
+            return [fn(f) for f in list(l.positional_fieldnames) + list(l.tagnames)]
         add(P + "get(every field)", lambda l=l, ef=each_field: ef(lambda f: hold(held, "%s.get(%s)" % (l.record_type, f), l.get(f))))
         add(P + "getattr(every field)", lambda l=l, ef=each_field: ef(lambda f: getattr(l, f) if f.isidentifier() else None))
         add(P + "try_get(every field)", lambda l=l, ef=each_field: ef(lambda f: l.try_get(f)))
@@ -316,7 +321,7 @@ def catalogue(gfapy, g, held):
         add(P + "get_datatype(every field)", lambda l=l, ef=each_field: ef(lambda f: l.get_datatype(f)))
         add(P + "validate_field(every field)", lambda l=l, ef=each_field: ef(lambda f: l.validate_field(f)))
         add(P + "get(absent tag)", lambda l=l: (l.get("qq"), l.get("name")))
-        others = [o for o in lines if o.record_type == rt and o is not l][:3]
+        others = [o for o in lines if o.record_type == rt and o is not l][:2]
         for o in others + [l]:
             add(P + "==", lambda l=l, o=o: l == o)
             add(P + "diff", lambda l=l, o=o: l.diff(o))
@@ -343,17 +348,21 @@ def catalogue(gfapy, g, held):
                 add("S.oriented_relations", lambda l=l, o=o: l.oriented_relations("+", gfapy.OrientedLine(o, "-")))
         if rt in ("L", "C", "E"):
             for n in ("from_segment", "to_segment", "from_orient", "to_orient", "from_name", "to_name", "from_end", "to_end", "oriented_from",
-                      "oriented_to", "sid1", "sid2", "beg1", "end1", "beg2", "end2", "alignment", "overlap", "eid", "paths"):
+                      "oriented_to", "sid1", "sid2", "beg1", "end1", "beg2", "end2", "alignment", "overlap", "eid") + (("paths",) if rt != "C" else ()):
                 add(rt + "." + n, lambda l=l, n=n, rt=rt: hold(held, rt + "." + n, getattr(l, n)))
             for n in ("is_dovetail", "is_containment", "is_internal", "is_circular", "is_circular_same_end"):
                 add(rt + "." + n, lambda l=l, n=n: getattr(l, n)())
-            for s in segs[:4]:
+            for s in segs[:3]:
                 add(rt + ".other(segment)", lambda l=l, s=s: l.other(s))
-                add(rt + ".other(segment, tolerant)", lambda l=l, s=s: l.other(s, True))
+                if rt != "E":
+                    add(rt + ".other(segment, tolerant)", lambda l=l, s=s: l.other(s, tolerant=True))
                 for e in "LR":
-                    add(rt + ".other_end", lambda l=l, s=s, e=e: l.other_end(gfapy.SegmentEnd(s, e), True))
+                    add(rt + ".other_end", lambda l=l, s=s, e=e: l.other_end(gfapy.SegmentEnd(s, e), tolerant=True))
                 for o_ in "+-":
-                    add(rt + ".other_oriented_segment", lambda l=l, s=s, o_=o_: l.other_oriented_segment(gfapy.OrientedLine(s, o_), True))
+                    if rt != "E":
+                        add(rt + ".other_oriented_segment", lambda l=l, s=s, o_=o_: l.other_oriented_segment(gfapy.OrientedLine(s, o_), tolerant=True))
+                    else:
+                        add(rt + ".other_oriented_segment", lambda l=l, s=s, o_=o_: l.other_oriented_segment(gfapy.OrientedLine(s, o_)))
         if rt in ("L", "C"):
             add(rt + ".from_coords", lambda l=l: l.from_coords)
             add(rt + ".to_coords", lambda l=l: l.to_coords)
@@ -369,7 +378,7 @@ def catalogue(gfapy, g, held):
             add("L.complement", lambda l=l: hold(held, "L.complement", l.complement()))
             add("L.complement.overlap", lambda l=l: hold(held, "L.complement.overlap", l.complement().overlap))
             add("L.complement.complement", lambda l=l: l.complement().complement())
-            for o in (links[:4] + [l]):
+            for o in ([x for x in links if x is not l][:2] + [l]):
                 add("L.is_complement", lambda l=l, o=o: l.is_complement(o))
                 add("L.is_eql", lambda l=l, o=o: l.is_eql(o))
                 add("L.is_same", lambda l=l, o=o: l.is_same(o))
@@ -409,7 +418,7 @@ def hold(held, label, v):
     def rec(lab, x, d):
         if d > 3:
             return
-        if is_value_object(gfapy, x) and not any(o is x for _, o in held) and len(held) < 400:
+        if is_value_object(gfapy, x) and not any(o is x for _, o in held) and len(held) < 120:
             held.append((lab, x))
         if isinstance(x, (list, tuple)) and not isinstance(x, gfapy.Line):
             for i, e in enumerate(list(x)[:8]):
@@ -458,17 +467,18 @@ def value_entries(gfapy, held):
 def snapshot(gfapy, g, held):
     parts = []
     try:
-        parts.append(("gfa", str(g)))
-    except Exception as e:
-        parts.append(("gfa", "<str raised %s>" % e.__class__.__name__))
-    try:
         ls = list(g.lines)
-        extra = [s for s in g.segments if s.virtual and not any(s is x for x in ls)]
+        extra = [x for x in g.segments if x.virtual and not any(x is y for y in ls)]
+        texts = []
         for i, l in enumerate(ls + extra):
             try:
-                parts.append(("line%d" % i, str(l)))
+                t = str(l)
             except Exception as e:
-                parts.append(("line%d" % i, "<str raised %s>" % e.__class__.__name__))
+                t = "<str raised %s>" % e.__class__.__name__
+            parts.append(("line%d" % i, t))
+            if i < len(ls):
+                texts.append(t)
+        parts.append(("gfa", "\n".join(texts)))        # what str(gfa) is: the join of its lines
     except Exception as e:
         parts.append(("lines", "<raised %s>" % e.__class__.__name__))
     for i, (lab, o) in enumerate(held):
@@ -541,20 +551,23 @@ def oracle(case):
         s1 = snapshot(gfapy, g, held)
         r2 = run_call(gfapy, name, thunk)
         s2 = snapshot(gfapy, g, held)
-        # objects handed out by the first call are new entries of `held`: compare only what existed before
+        # objects handed out by the calls are new entries of `held`: compare only what existed before
+        # (a snapshot between the two calls too: a change the second call undoes -- complementing twice -- must show)
         keys0 = {k for k, _ in snap}
+        n0 = len(F)
         compare(F, v, name, snap, [(k, x) for k, x in s1 if k in keys0], where)
-        keys1 = {k for k, _ in s1}
-        compare(F, v, name + " (second call)", s1, [(k, x) for k, x in s2 if k in keys1], where)
+        if len(F) == n0:
+            keys1 = {k for k, _ in s1}
+            compare(F, v, name, s1, [(k, x) for k, x in s2 if k in keys1], where)
         if r1 != r2:
             if v == 0 and r1[0] == r2[0] == "ok" and M.canon_text(r1[1]) == M.canon_text(r2[1]):
                 F.append("lazy-spelling: %s (%s) answered %s then %s" % (name, where, r1[1][:200], r2[1][:200]))
             else:
                 F.append("answer-changes[%s]: (%s) first %s then %s" % (name, where, str(r1)[:300], str(r2)[:300]))
         for r in (r1, r2):
-            if r[0] == "foreign" and (name, r[1]) not in foreign_seen:
-                foreign_seen.add((name, r[1]))
-                F.append("foreign-exception[%s]: (%s) %s" % (name, where, r[1]))
+            if r[0] == "foreign" and r[1] not in foreign_seen:
+                foreign_seen.add(r[1])
+                F.append("foreign-exception[%s]: (%s) in %s" % (r[1], where, name))
         snap = s2
 
     if todo is not None:
@@ -562,10 +575,6 @@ def oracle(case):
             do(name, thunk)
         for name, thunk in value_entries(gfapy, held):
             do(name, thunk)
-        # and once more, the reads that trigger parsing, after everything else
-        for name, thunk in todo:
-            if "get(" in name or "complement" in name:
-                do(name, thunk)
     else:
         for a, b in case["calls"]:
             V = value_entries(gfapy, held)
